@@ -354,6 +354,9 @@ impl Property for C03 {
     fn enumeration_exhaustive(tier: Tier) -> Option<String> {
         Some(format!("all rule lists of length <= {} over a 31-rule alphabet (7 kinds x 4 patterns + 2 prefixed MATCH + 1 uninterpretable DISALLOW), as material rules and as product rules, on one fixed artifact configuration", tier.pick(2, 3)))
     }
+    fn concurrent() -> bool {
+        true
+    }
     fn check(spec: &Spec, _env: &mut Env) -> Outcome {
         let mut o = Outcome::new();
         let (reference, lib) = evaluate(spec);
